@@ -176,3 +176,125 @@ Definition side_ranks_ok (g : pgraph) (a : action) : bool :=
   forallb (fun n => String.eqb (n_op n) "CastLike" ||
                     forallb (fun u => existsb (Nat.eqb u) (dirty a ++ [ac_t2 a]) || decl_rank_le g u (ac_src a)) (n_ins n))
           (ac_chain a).
+
+(* ================================================================ structure of an accepted action *)
+Fixpoint chain_facts (g : pgraph) (prev : name) (chain : list node) : Prop :=
+  match chain with
+  | [] => True
+  | n :: r => exists y rest, n_outs n = [y] /\ n_caps n = [] /\ n_ins n = prev :: rest /\
+                side_ok g (String.eqb (n_op n) "CastLike") prev 0 (n_ins n) = true /\ observed g y = false /\ chain_facts g y r
+  end.
+
+Lemma chain_ok_facts g : forall chain prev, chain_ok g prev chain = true -> chain_facts g prev chain.
+Proof.
+  induction chain as [|n r IH]; simpl; intros prev H; auto.
+  destruct (n_outs n) as [|y [|]] eqn:Ho; try discriminate. destruct (n_caps n) eqn:Hc; try discriminate.
+  destruct (n_ins n) as [|x rest] eqn:Hi; try discriminate.
+  apply andb_prop in H as [H H4]. apply andb_prop in H as [H H3]. apply andb_prop in H as [H1 H2].
+  apply Nat.eqb_eq in H1. subst x. apply negb_true_iff in H3. exists y, rest. repeat split; auto.
+Qed.
+
+Lemma chain_facts_in g : forall chain prev n, chain_facts g prev chain -> In n chain ->
+  exists p y rest, In p (prev :: map out_of chain) /\ n_outs n = [y] /\ In y (map out_of chain) /\ n_caps n = [] /\
+    n_ins n = p :: rest /\ side_ok g (String.eqb (n_op n) "CastLike") p 0 (n_ins n) = true.
+Proof.
+  induction chain as [|m r IH]; simpl; intros prev n H Hin; [contradiction|].
+  destruct H as (y & rest & Ho & Hc & Hi & Hs & Hobs & Hr).
+  assert (Hoy : out_of m = y) by (unfold out_of; now rewrite Ho).
+  destruct Hin as [<-|Hin].
+  - exists prev, y, rest. rewrite Hoy. repeat split; auto.
+  - destruct (IH y n Hr Hin) as (p & y' & rest' & Hp & H1 & H2 & H3 & H4 & H5).
+    exists p, y', rest'. rewrite Hoy. repeat split; auto. destruct Hp as [<-|Hp]; [right; now left | right; now right].
+Qed.
+
+Lemma chain_facts_unobs g : forall chain prev y, chain_facts g prev chain -> In y (map out_of chain) -> observed g y = false.
+Proof.
+  induction chain as [|m r IH]; simpl; intros prev y H Hin; [contradiction|].
+  destruct H as (y0 & rest & Ho & _ & _ & _ & Hobs & Hr).
+  destruct Hin as [<-|Hin]; [unfold out_of; now rewrite Ho | eauto].
+Qed.
+
+Lemma chain_facts_last g : forall chain prev, chain_facts g prev chain -> chain <> [] ->
+  n_outs (last chain (mkNode "" [] [] [] [])) = [last (map out_of chain) prev].
+Proof.
+  induction chain as [|m r IH]; intros prev H Hne; [congruence|].
+  destruct H as (y & rest & Ho & _ & _ & _ & _ & Hr). destruct r as [|m2 r2].
+  - simpl. unfold out_of. now rewrite Ho.
+  - change (last (m :: m2 :: r2) _) with (last (m2 :: r2) (mkNode "" [] [] [] [])).
+    change (last (map out_of (m :: m2 :: r2)) prev) with (last (map out_of (m2 :: r2)) prev).
+    rewrite (IH y Hr) by discriminate. f_equal. simpl. destruct (map out_of r2); reflexivity.
+Qed.
+
+Lemma producer_spec ns v p : producer ns v = Some p -> In p ns /\ In v (n_outs p).
+Proof.
+  unfold producer. intro H. apply find_some in H as [H1 H2]. split; auto.
+  apply existsb_exists in H2 as (y & Hy & E). apply Nat.eqb_eq in E. now subst.
+Qed.
+
+Lemma walk_spec ns : forall fuel v acc T1 chain, walk ns fuel v acc = Some (T1, chain) ->
+  exists new, chain = new ++ acc /\ In T1 ns /\ is_reshape T1 = true /\
+    (forall n, In n new -> In n ns /\ is_allowed n = true) /\ In v (n_outs (last new T1)).
+Proof.
+  induction fuel as [|k IH]; simpl; intros v acc T1 chain H; [discriminate|].
+  destruct (producer ns v) as [p|] eqn:Ep; [|discriminate]. apply producer_spec in Ep as [Hp Hv].
+  destruct (is_allowed p) eqn:Ea.
+  - destruct (n_ins p) as [|x rest]; [discriminate|].
+    destruct (IH _ _ _ _ H) as (new & -> & H1 & H2 & H3 & H4).
+    exists (new ++ [p]). rewrite <- app_assoc. repeat split; auto.
+    + apply in_app_or in H0 as [H0|[<-|[]]]; [now apply H3 | exact Hp].
+    + apply in_app_or in H0 as [H0|[<-|[]]]; [now apply H3 | exact Ea].
+    + now rewrite last_last.
+  - destruct (is_reshape p) eqn:Er; [|discriminate]. injection H as <- <-.
+    exists []. repeat split; auto; intros n [].
+Qed.
+
+Record action_facts (g : pgraph) (a : action) (T1 T2 : node) : Prop := {
+  af_T1_in : In T1 (pg_nodes g);
+  af_T1_op : n_op T1 = "Reshape"%string;
+  af_T1_ins : exists r, n_ins T1 = ac_src a :: r;
+  af_T1_outs : n_outs T1 = [ac_t1 a];
+  af_T2_in : In T2 (pg_nodes g);
+  af_T2_op : n_op T2 = "Reshape"%string;
+  af_T2_ins : exists r, n_ins T2 = last (dirty a) 0 :: r;
+  af_T2_outs : n_outs T2 = [ac_t2 a];
+  af_chain_in : forall n, In n (ac_chain a) -> In n (pg_nodes g) /\ is_allowed n = true;
+  af_compat : shapes_compatible (pg_shape g (ac_src a)) (pg_shape g (ac_t2 a)) = true;
+  af_unobs : forall x, In x (dirty a) -> observed g x = false;
+  af_chain : chain_facts g (ac_t1 a) (ac_chain a);
+  af_cons : forall x m, In x (dirty a) -> In m (pg_nodes g) -> In x (n_ins m) -> in_members (chain_outs a ++ [ac_t2 a]) m = true;
+  af_nodup : NoDup (ac_src a :: dirty a ++ [ac_t2 a]) }.
+
+Lemma decide_facts g T2 a : In T2 (pg_nodes g) -> decide g T2 = Some a -> exists T1, action_facts g a T1 T2.
+Proof.
+  intros HT2 H. unfold decide in H.
+  destruct (is_reshape T2) eqn:Er2; [|discriminate]. simpl in H.
+  destruct (n_ins T2) as [|v rest2] eqn:Hi2; [discriminate|].
+  destruct (n_outs T2) as [|b [|]] eqn:Ho2; try discriminate.
+  destruct (walk (pg_nodes g) 8 v []) as [[T1 chain]|] eqn:Ew; [|discriminate].
+  destruct (n_ins T1) as [|src rest1] eqn:Hi1; [discriminate|].
+  destruct (n_outs T1) as [|a0 [|]] eqn:Ho1; try discriminate.
+  match type of H with (if ?c then _ else _) = _ => destruct c eqn:Ec; [|discriminate] end.
+  injection H as <-.
+  apply andb_prop in Ec as [Ec H5]. apply andb_prop in Ec as [Ec H4]. apply andb_prop in Ec as [Ec H3].
+  apply andb_prop in Ec as [H1 H2]. apply negb_true_iff in H2.
+  destruct (walk_spec _ _ _ _ _ _ Ew) as (new & Hnew & HT1 & Hr1 & Hch & Hlink). rewrite app_nil_r in Hnew. subst new.
+  pose proof (chain_ok_facts _ _ _ H3) as Hcf.
+  exists T1. constructor; cbn [ac_src ac_t1 ac_chain ac_t2]; auto.
+  - unfold is_reshape in Hr1. now apply String.eqb_eq in Hr1.
+  - eauto.
+  - unfold is_reshape in Er2. now apply String.eqb_eq in Er2.
+  - (* T2's data input is the last dirty name *)
+    exists rest2. f_equal. unfold dirty, chain_outs. cbn [ac_t1 ac_chain].
+    destruct chain as [|c0 cr] eqn:Ech.
+    + simpl in Hlink. rewrite Ho1 in Hlink. destruct Hlink as [<-|[]]. reflexivity.
+    + rewrite <- Ech in *. assert (Hne : chain <> []) by (rewrite Ech; discriminate).
+      rewrite (last_indep _ T1 (mkNode "" [] [] [] [])) in Hlink by exact Hne.
+      rewrite (chain_facts_last g chain a0 Hcf Hne) in Hlink. destruct Hlink as [<-|[]].
+      rewrite Ech. simpl. destruct (map out_of cr); reflexivity.
+  - intros x [<-|Hx]; [exact H2|]. eapply chain_facts_unobs; eauto.
+  - intros x m Hx Hm Hin. rewrite forallb_forall in H4. specialize (H4 x Hx). rewrite forallb_forall in H4. apply H4.
+    unfold consumers. apply filter_In. split; auto. apply existsb_exists. exists x. split; auto. apply Nat.eqb_refl.
+  - now apply nodupb_NoDup.
+Qed.
+
+Lemma last_indep_dummy : True. Proof. exact I. Qed.
